@@ -86,42 +86,68 @@ def string(value):
         .replace('"', '\\"')
     )
 
-    if value.endswith('\\'):
-        value = value[:-1] + '\\\\'
+    if len(value) - len(value.rstrip('\\')) & 1:
+        # a single backslash at the end would escape the closing quote
+        value += '\\'
 
     return '"%s"' % value
 
 
-def ident(value):
+def ident(value, hashname=False):
     r"""
     Serialize identifier `value`: the tokenizer resolves hexadecimal escapes,
     so a character which would not be read as part of the identifier again
-    (a digit at the start, a control character) is written as escape, e.g.::
+    (a digit at the start, a control character, an ASCII character which is
+    no name character like ``{``, ``,`` or a space) is written as escape,
+    e.g.::
 
         ``1a`` => ``\31 a``
+
+    A backslash and the character after it (a simple escape which the
+    tokenizer keeps) are left alone.  With `hashname` the value is the name
+    after ``#``, which may start with a digit.
     """
-    if not value or (
-        not value[0].isdigit()
-        and not (value[0] == '-' and value[1:2].isdigit())
-        and not _match_control(value)
-    ):
+    if value == '-':
+        # a single dash is no identifier
+        return '\\00002d '
+    if not value or not _match_escape_needed(value):
         return value
 
     out = []
-    for i, c in enumerate(value):
+    i, n = 0, len(value)
+    escaped = False
+    while i < n:
+        c = value[i]
+        escaped = False
+        if c == '\\' and i + 1 < n:
+            out.append(value[i : i + 2])
+            i += 2
+            continue
         if (
-            '0' <= c <= '9' and (i == 0 or (i == 1 and value[0] == '-'))
-        ) or c < ' ' or c == '\x7f':
+            (
+                '0' <= c <= '9'
+                and (i == 0 or (i == 1 and value[0] == '-'))
+                and not hashname
+            )
+            or c < ' '
+            or c == '\x7f'
+            or (c < '\x80' and c != '\\' and not (c.isalnum() or c in '-_'))
+        ):
             # (six digits need no terminating space)
             out.append('\\%06x' % ord(c))
+            escaped = True
         else:
             out.append(c)
-    if out[-1] != value[-1]:
+        i += 1
+    if escaped:
         # white space following the escape would be read as part of it
         out.append(' ')
     return ''.join(out)
 
 
+_match_escape_needed = re.compile(
+    r'^-?[0-9]|[\x00-\x2c\x2e\x2f\x3a-\x40\x5b\x5d\x5e\x60\x7b-\x7f]'
+).search
 _match_control = re.compile('[\x00-\x1f\x7f]').search
 
 
@@ -132,7 +158,15 @@ def stringvalue(string):
 
         ``'a \'string'`` => ``a 'string``
     """
-    return string.replace('\\' + string[0], string[0])[1:-1]
+    # (pairwise, so that the second backslash of an escaped backslash is not
+    # taken for the start of an escaped quote)
+    quote = string[0]
+    return _sub_escaped(
+        lambda m: m.group(1) if m.group(1) == quote else m.group(0), string[1:-1]
+    )
+
+
+_sub_escaped = re.compile(r'\\(.)', re.S).sub
 
 
 _match_forbidden_in_uri = re.compile(r'''.*?[\(\)\s\;,'"]''', re.U).match
